@@ -22,13 +22,13 @@ META = {
     "bounds": "GFA1 document S,S,L,P,P (5 lines), the two paths walking the one link in opposite directions (so that they share its placeholder with opposite orientations when they arrive first): all 120 arrival orders x 4 link orientation pairs x link written as the first path asks or as its complement x overlaps '*' or explicit CIGARs",
     "timeout": {"quick": 240, "thorough": 600}, "parts": {"quick": 12, "thorough": 12}},
   "h_gfa1_circular": {"kind": "G", "functions": _FUNCS, "tiers": ["thorough"],
-    "bounds": "GFA1 document S,S,S,L,L,L,P(circular) (7 lines): all 5040 arrival orders x orientation bit",
-    "timeout": {"quick": 240, "thorough": 1200}, "parts": {"quick": 16, "thorough": 16}},
+    "bounds": "GFA1 document S,S,L,L,C,P(circular path over the two links) (6 lines): all 720 arrival orders x orientation bit",
+    "timeout": {"quick": 240, "thorough": 900}, "parts": {"quick": 16, "thorough": 16}},
   "h_gfa2_groups": {"kind": "G", "functions": _FUNCS,
-    "bounds": "GFA2 document S,S,E,O,U (5 lines) quick / S,S,E,G,F,O,U (7 lines) thorough: all arrival orders x 2 orientations x E interval kind (dovetail/containment/internal), plus the document S,S,G,O,U whose groups list the gap",
+    "bounds": "GFA2 document S,S,E,O,U (5 lines) quick / S,S,E,G,O,U (6 lines) thorough: all arrival orders x 2 orientations x E interval kind (dovetail/containment/internal), plus the document S,S,G,O,U whose groups list the gap",
     "timeout": {"quick": 240, "thorough": 1200}, "parts": {"quick": 12, "thorough": 16}},
   "h_gfa2_nested": {"kind": "G", "functions": _FUNCS,
-    "bounds": "GFA2 document S,S,E,O(o1),O(o2 -> o1-),U(u1 -> o2,u2),U(u2 -> s1) restricted to 5 (quick: S,E,O,O,U) / 7 lines: all arrival orders",
+    "bounds": "GFA2 document S,S,E,O(o1),O(o2 -> o1-),U(u1 -> o2,u2),U(u2 -> s1) restricted to 5 (quick: S,E,O,O,U) / 6 lines (thorough: S,S,E,O,O,U): all arrival orders",
     "timeout": {"quick": 240, "thorough": 1200}, "parts": {"quick": 12, "thorough": 16}},
  },
 }
@@ -92,17 +92,17 @@ def h_gfa1_two_paths(code: int, p1: bool, p2: bool, along: bool, cig: bool) -> b
 
 def h_gfa1_circular(code: int, p1: bool) -> bool:
   """
-  pre: 0 <= code < 5040
+  pre: 0 <= code < 720
   pre: code % NPART == PART
   post: _ == True
   """
   vp.enter("circ")
   o = "+" if p1 else "-"
-  doc = ["S\ta\t*", "S\tb\t*", "S\tc\t*", "L\ta\t+\tb\t" + o + "\t1M", "L\tb\t" + o + "\tc\t+\t2M",
-         "L\ta\t-\tc\t-\t3M", "P\tp\ta+,b" + o + ",c+\t1M,2M,3M"]
+  doc = ["S\ta\t*", "S\tb\t*", "L\ta\t+\tb\t" + o + "\t1M", "L\tb\t" + o + "\ta\t+\t2M",
+         "C\ta\t+\tb\t+\t0\t*", "P\tp\ta+,b" + o + "\t1M,2M"]
   return _perm_check(doc, code, "circ")
 
-NQ = vp.T(120, 5040)
+NQ = vp.T(120, 720)
 EKIND = [("5", "10$", "0", "5"),     # dovetail
          ("0", "10$", "2", "8"),     # containment
          ("2", "6", "3", "7")]       # internal
@@ -121,13 +121,13 @@ def h_gfa2_groups(code: int, p1: bool, k: int) -> bool:
     # a gap listed by an ordered and an unordered group (gfapy accepts gaps as group items)
     doc = ["S\ts1\t10\t*", "S\ts2\t10\t*", "G\tg1\ts1+\ts2" + o + "\t5\t*", "O\to1\ts1+ g1+ s2" + o, "U\tu1\tg1 o1"]
     if not vp.QUICK:
-      doc = doc[:3] + ["E\te1\ts1+\ts2" + o + "\t5\t10$\t0\t5\t*", "F\ts2\tr1" + o + "\t0\t5\t0\t5\t*"] + doc[3:]
+      doc = doc[:3] + ["F\ts2\tr1" + o + "\t0\t5\t0\t5\t*"] + doc[3:]
     return _perm_check(doc, code, "g2")
   b1, e1, b2, e2 = EKIND[kk]
   doc = ["S\ts1\t10\t*", "S\ts2\t10\t*", "E\te1\ts1+\ts2" + o + "\t" + b1 + "\t" + e1 + "\t" + b2 + "\t" + e2 + "\t*",
          "O\to1\ts1+ s2" + o, "U\tu1\ts1 e1 o1"]
   if not vp.QUICK:
-    doc = doc[:3] + ["G\tg1\ts1-\ts2" + o + "\t5\t*", "F\ts2\tr1" + o + "\t0\t5\t0\t5\t*"] + doc[3:]
+    doc = doc[:3] + ["G\tg1\ts1-\ts2" + o + "\t5\t*"] + doc[3:]
     doc[-1] = "U\tu1\ts1 e1 o1 g1"
   if kk != 0:
     doc = [d if not d.startswith("O\t") else "O\to1\ts1+ e1+" for d in doc]
@@ -158,5 +158,5 @@ def h_gfa2_nested(code: int, p1: bool) -> bool:
       if invariant(g): return False
     return True
   doc = ["S\ts1\t10\t*", "S\ts2\t10\t*", "E\te1\ts1+\ts2" + o + "\t5\t10$\t0\t5\t*", "O\to1\ts1+ s2" + o,
-         "O\to2\to1-", "U\tu1\to2 u2", "U\tu2\ts1 e1"]
+         "O\to2\to1-", "U\tu1\to2 s1 e1"]
   return _perm_check(doc, code, "nest")
